@@ -121,3 +121,24 @@ Definition next_char (body : str) : N := match body with c :: _ => c | [] => 39 
 Inductive c_chars_ext : str -> list N -> Prop :=
 | CEs_nil : c_chars_ext [] []
 | CEs_cons sp v body vs : c_char_ext (next_char body) sp v -> c_chars_ext body vs -> c_chars_ext (sp ++ body) (v :: vs).
+
+(* ---- decimal floating constants (ISO C 6.4.4.2): only their classification is claimed (C10) *)
+Inductive dec_digits : str -> Prop :=
+| DD_one c d : digit_char 10 c d -> dec_digits [c]
+| DD_cons c d cs : digit_char 10 c d -> dec_digits cs -> dec_digits (c :: cs).
+
+Inductive exp_part : str -> Prop :=
+| EX e ds : e = 101 \/ e = 69 -> dec_digits ds -> exp_part (e :: ds)
+| EX_sign e sg ds : e = 101 \/ e = 69 -> sg = 43 \/ sg = 45 -> dec_digits ds -> exp_part (e :: sg :: ds).
+
+Inductive opt_exp : str -> Prop := OE_none : opt_exp [] | OE_some ex : exp_part ex -> opt_exp ex.
+Inductive float_sfx : str -> Prop :=
+| FS_none : float_sfx [] | FS_f : float_sfx [102] | FS_F : float_sfx [70] | FS_l : float_sfx [108] | FS_L : float_sfx [76].
+
+Inductive c_dec_float : str -> Prop :=
+| F_frac ds1 ds2 ex sfx : dec_digits ds1 \/ ds1 = [] -> dec_digits ds2 -> opt_exp ex -> float_sfx sfx ->
+    c_dec_float (ds1 ++ 46 :: ds2 ++ ex ++ sfx)                       (* 1.5  .5  1.5e3f *)
+| F_trail ds1 ex sfx : dec_digits ds1 -> opt_exp ex -> float_sfx sfx ->
+    c_dec_float (ds1 ++ 46 :: ex ++ sfx)                              (* 1.  1.e3 *)
+| F_exp ds1 ex sfx : dec_digits ds1 -> exp_part ex -> float_sfx sfx ->
+    c_dec_float (ds1 ++ ex ++ sfx).                                   (* 1e5  1E-5L *)
